@@ -103,13 +103,32 @@ class Ctx:
         if not todo:
             return []
         confirm = 2 if self.tier == "thorough" else None
-        solve.solve_all(todo, self.budget, confirm=confirm)
+        # textually identical VCs (the same clause reached along several paths) are solved once
+        uniq, dups = {}, []
+        for ob in todo:
+            k = (ob["smt2"], tuple(ob["model_vars"]))
+            if k in uniq:
+                dups.append((ob, uniq[k]))
+            else:
+                uniq[k] = ob
+        solve.solve_all(list(uniq.values()), self.budget, confirm=confirm)
+        for ob, src in dups:
+            for f in ("status", "backend", "seconds", "model", "notes", "confirmed"):
+                if f in src:
+                    ob[f] = src[f]
+            ob["seconds"] = 0.0
+            ob["same_vc_as"] = src["name"]
         # retry unknowns once with a tripled budget (a busy machine must not flip a verdict)
-        again = [ob for ob in todo if ob["status"] == "unknown" and not ob["probe"]]
+        again = [ob for ob in uniq.values() if ob["status"] == "unknown" and not ob["probe"]]
         if again:
             for ob in again:
                 ob["retried"] = True
             solve.solve_all(again, self.budget * 3, jobs=8, confirm=confirm)
+        for ob, src in dups:
+            if src.get("retried"):
+                for f in ("status", "backend", "model", "notes", "confirmed"):
+                    if f in src:
+                        ob[f] = src[f]
         for ob in todo:
             if ob["status"] == "conflict":
                 raise RuntimeError("back ends disagree on %s: %s" % (ob["name"], ob["backend"]))
